@@ -171,6 +171,20 @@ def crossCheck (exact : Bool) (S O : Nat) (D X : Block) (v : Verdict) : Verdict 
   let _ := S
   return v
 
+/-- sparse against dense when the sparse containers dropped sub-threshold entries:
+    `0 ≤ dense − sparse ≤ 2·equalToleranceSmall` entry-wise (theorem `sparse_within_two_tol`) -/
+def crossSparseDropped (exact : Bool) (S O : Nat) (D X : Block) (v : Verdict) : Verdict := Id.run do
+  let mut v := v
+  let slack : Rat := if exact then 0 else tol9
+  let e : OBlock := { un := #[], no := #[], pun := #[], pno := #[], sosa := #[] }
+  for o in List.range O do
+    let d := (D.obs.getD o e).un; let x := (X.obs.getD o e).un
+    v := fIf v (!(allLt S fun s1 =>
+          let df := d.getD s1 0 - x.getD s1 0
+          decide (-slack ≤ df) && decide (df ≤ 2 * tolSmall + slack)))
+        (fun _ => s!"updateBeliefUnnormalized/sparse differs_from_dense_beyond_threshold o={o} dense={d} sparse={x}")
+  return v
+
 /-- `upd exact S O | T | Ob | R | b | dense … | sparse … | generic … | usereigen …` -/
 def upd (conv : Bool) : P String := do
   let exact ← P.bool; let S ← P.nat; let O ← P.nat; P.bar
@@ -199,7 +213,7 @@ def upd (conv : Bool) : P String := do
   let v := checkBlock conv exact m b UE v
   let v := crossCheck exact S O D G v
   let v := crossCheck exact S O D UE v
-  let v := if dropped then v else crossCheck exact S O D Sp v
+  let v := if dropped then crossSparseDropped exact S O D Sp v else crossCheck exact S O D Sp v
   return v.render
 
 /-- `hist rep exact S A O | T | Ob | b0 | n (a o)* | (alpha bel)*` -/
